@@ -33,13 +33,32 @@ def optStr (j : J) (k : String) : Option String := (j.get? k).bind J.asStr?
 def strList (j : J) (k : String) : List String := (j.arrD k).filterMap J.asStr?
 def ofOptStr : Option String → J | some s => .str s | none => .null
 
+def paramOfJson (j : J) : ParamD :=
+  { name := j.strD "name", kind := ParamKind.ofString (j.strD "kind"), hasDefault := j.boolD "has_default" }
+
+/-- optional key: absent / null = no resolver -/
+def resolverOfJson? (j : J) (k : String) : Option ResolverD :=
+  match j.get? k with
+  | some (.obj kvs) =>
+    let r : J := .obj kvs
+    some { inspectable := !(r.boolD "uninspectable"), params := (r.arrD "params").map paramOfJson }
+  | _ => none
+
+def paramToJson (p : ParamD) : J :=
+  .obj [("name", .str p.name), ("kind", .str p.kind.toString), ("has_default", .bool p.hasDefault)]
+
+def resolverToJson : Option ResolverD → J
+  | none => .null
+  | some r => .obj [("uninspectable", .bool (!r.inspectable)), ("params", .arr (r.params.map paramToJson))]
+
 def argOfJson (j : J) : ArgD :=
   { name := j.strD "name", type := tyOfJson (j.getD "type"), hasDefault := j.boolD "has_default",
-    default := j.getD "default_value", desc := optStr j "desc" }
+    default := j.getD "default_value", desc := optStr j "desc",
+    pythonName := (optStr j "python_name").getD (j.strD "name") }
 
 def fieldOfJson (j : J) : FieldD :=
   { name := j.strD "name", type := tyOfJson (j.getD "type"), args := (j.arrD "args").map argOfJson,
-    deprecated := optStr j "deprecated", desc := optStr j "desc" }
+    deprecated := optStr j "deprecated", desc := optStr j "desc", resolver := resolverOfJson? j "resolver" }
 
 def enumValOfJson (j : J) : EnumValD :=
   { name := j.strD "name", value := j.getD "value", deprecated := optStr j "deprecated", desc := optStr j "desc" }
@@ -48,7 +67,8 @@ def typeOfJson (j : J) : TypeD :=
   { kind := (Kind.ofString (j.strD "kind")).getD .scalar, name := j.strD "name", desc := optStr j "desc",
     interfaces := strList j "interfaces", fields := (j.arrD "fields").map fieldOfJson,
     members := strList j "members", values := (j.arrD "values").map enumValOfJson,
-    inputFields := (j.arrD "input_fields").map argOfJson }
+    inputFields := (j.arrD "input_fields").map argOfJson,
+    defaultResolver := resolverOfJson? j "default_resolver", builtin := j.boolD "builtin" }
 
 def directiveOfJson (j : J) : DirectiveD :=
   { name := j.strD "name", locations := strList j "locations", args := (j.arrD "args").map argOfJson,
@@ -56,7 +76,8 @@ def directiveOfJson (j : J) : DirectiveD :=
 
 def schemaOfJson (j : J) : SchemaD :=
   { types := (j.arrD "types").map typeOfJson, directives := (j.arrD "directives").map directiveOfJson,
-    query := optStr j "query", mutation := optStr j "mutation", subscription := optStr j "subscription" }
+    query := optStr j "query", mutation := optStr j "mutation", subscription := optStr j "subscription",
+    defaultResolver := resolverOfJson? j "default_resolver" }
 
 def argToJson (a : ArgD) : J :=
   .obj [("name", .str a.name), ("type", tyToJson a.type), ("has_default", .bool a.hasDefault),
